@@ -29,6 +29,20 @@ func (e *Engine) mapGet(m *MapV, k Value) (Value, bool) {
 			panic(unsupported("symbolic iface string key"))
 		}
 	}
+	if ki, ok := k.(Int); ok && ki.T != nil {
+		// symbolic integer key: fork over the stored integer keys
+		for i, kk := range m.keys {
+			if m.del[i] {
+				continue
+			}
+			if kc, ok := kk.(Int); ok && kc.W == ki.W {
+				if e.Branch(mkEq(ki.T, kc.term())) {
+					return m.vals[i], true
+				}
+			}
+		}
+		return nil, false
+	}
 	return m.get(k)
 }
 
@@ -55,6 +69,44 @@ func (e *Engine) mapSet(m *MapV, k, v Value) {
 		return
 	}
 	m.set(k, v)
+}
+
+// mapDelete removes key k; a symbolic string key is matched against the stored keys by forking.
+func (e *Engine) mapDelete(m *MapV, k Value) {
+	if s, ok := k.(Str); ok && !s.isC() {
+		for i, kk := range m.keys {
+			if m.del[i] {
+				continue
+			}
+			ks, ok := kk.(Str)
+			if !ok {
+				continue
+			}
+			if e.Branch(strEq(s, ks)) {
+				m.del[i] = true
+				if ks.isC() {
+					delete(m.idx, hashKey(kk))
+				}
+				m.n--
+				return
+			}
+		}
+		return
+	}
+	// concrete key: a stored symbolic key may equal it
+	for i, kk := range m.keys {
+		if m.del[i] {
+			continue
+		}
+		if ks, ok := kk.(Str); ok && !ks.isC() {
+			if cs, ok := k.(Str); ok && e.Branch(strEq(cs, ks)) {
+				m.del[i] = true
+				m.n--
+				return
+			}
+		}
+	}
+	m.delete(k)
 }
 
 type iter struct {
@@ -260,7 +312,10 @@ func (e *Engine) builtin(b *ssa.Builtin, args []Value, call *ssa.Call) Value {
 		m := args[0].(*MapV)
 		e.noteMap(m, true)
 		if m != nil {
-			m.delete(args[1])
+			if lbl, ok := e.roMaps[m]; ok {
+				e.reportKind("frame", "delete from read-only "+lbl+" at "+e.where(), nil)
+			}
+			e.mapDelete(m, args[1])
 		}
 		return nil
 	case "max", "min":
@@ -297,6 +352,16 @@ func (e *Engine) builtin(b *ssa.Builtin, args []Value, call *ssa.Call) Value {
 			// pointer to first element of a byte array
 			if p == nil {
 				return Str{}
+			}
+			if ci, ok := e.cellArr[p]; ok {
+				if ci.idx+n > len(*ci.arr) {
+					panic(pathEnd{"violation", "unsafe.String reads past the allocation"})
+				}
+				bs := make([]Int, n)
+				for i := 0; i < n; i++ {
+					bs[i] = (*ci.arr)[ci.idx+i].(Int)
+				}
+				return strFromBytes(bs)
 			}
 			if bp, ok := e.byteBacking[p]; ok {
 				bs := make([]Int, n)
